@@ -1570,8 +1570,9 @@ impl<'a> Monitor<'a>
                         .filter(|x| x.actor == actor && matches!(x.state, OState::Postponed | OState::Reached))
                         .map(|x| x.kind).collect();
                     let prop = if extra { "C04" } else { "C03" };
+                    let tag = if variant == Variant::ExclusiveFlush { ":reader=ExclusiveFlush" } else { "" };
                     self.viol(prop, "R-data",
-                        format!("{}:{:?}:replay={replay}", if extra { "extra-data" } else { "wrong-or-missing-data" }, kind_class(o.kind)),
+                        format!("{}:{:?}:replay={replay}{tag}", if extra { "extra-data" } else { "wrong-or-missing-data" }, kind_class(o.kind)),
                         format!("actor {actor} run caused by {:?} (source {:?}, payload {:?}): {msg}; pending for this \
                             actor: {:?}", o.kind, o.source, o.payload, pending_kinds));
                 }
@@ -1832,7 +1833,8 @@ impl<'a> Monitor<'a>
             if !ok
             {
                 let o = o.clone();
-                self.viol("C05", "R-release", format!("early-drop:{:?}:{:?}", kind_class(o.kind), o.state),
+                let tag = if self.actors.get(o.actor as usize).map(|a| a.variant) == Some(Variant::ExclusiveFlush) { ":reader=ExclusiveFlush" } else { "" };
+                self.viol("C05", "R-release", format!("early-drop:{:?}:{:?}{tag}", kind_class(o.kind), o.state),
                     format!("payload {p} dropped while its reader actor {} ({:?}) has yet to run / is running", o.actor, o.state));
             }
         }
